@@ -624,6 +624,53 @@ def gen_sample(rng, allow_degenerate=True):
     return ys, rng.choice(["float64", "float64", "float64", "list"])
 
 
+def gen_sample_signed_wide(rng):
+    """Negated losses / log-likelihoods and mixed-sign scores: the observation of largest *magnitude* is not the
+    largest *value* (|min| >> max), the magnitudes span 3-8 orders, and some of the large-magnitude observations
+    come with floating-point-noise neighbours (the same point computed twice: equal up to 1-4 ulps of the sample's
+    dtype, plus the occasional exact duplicate).  "Round the data a tiny bit ... 3 fewer digits than the coarsest
+    precision of any observed point" is about this family: the coarsest precision sits at the *bottom* of the
+    sample here.  Returns (values as floats, dtype tag, tags for the input histogram)."""
+    dtype = rng.choice(["float64", "float64", "list", "float32", "float32"])
+    dt = np.float32 if dtype == "float32" else np.float64
+    sign = rng.choice(["negative", "negative", "mixed", "mixed", "negative+0"])
+    orders = rng.uniform(3.0, 8.0)
+    top = 10.0 ** rng.uniform(-2.0, 6.0 if dtype != "float32" else 4.0)      # the largest magnitude
+    n0 = rng.choice([5, 6, 8, 10, 12, 16])
+    mags = [top, top * 10.0 ** (-orders)] + [top * 10.0 ** (-rng.uniform(0.0, orders)) for _ in range(n0 - 2)]
+    mags += [top * rng.uniform(0.1, 1.0) for _ in range(rng.choice([0, 1, 2]))]   # company in the top decade
+    mags.sort(reverse=True)
+    if rng.random() < 0.5:
+        mags = [float("%.4g" % m) for m in mags]                                 # reported with 4 digits
+    vals = [-m for m in mags]
+    if sign == "mixed":
+        for i in range(1, rng.randint(1, max(1, len(vals) // 3)) + 1):
+            vals[-i] = -vals[-i]                                                 # the small magnitudes are the positive scores
+    elif sign == "negative+0":
+        vals.append(0.0)
+    vals = [float(dt(v)) for v in vals]
+    # near-ties among the large-magnitude observations (magnitude within a decade of the largest)
+    big = [i for i, v in enumerate(vals) if abs(v) >= top / 10.0]
+    rng.shuffle(big)
+    ulps = []
+    extra = []
+    for i in big[:rng.choice([1, 1, 2, 3])]:
+        for _ in range(rng.choice([1, 1, 2])):
+            k = rng.choice([1, 1, 2, 3, 4])
+            toward = dt(rng.choice([-np.inf, np.inf]))
+            w = dt(vals[i])
+            for _ in range(k):
+                w = np.nextafter(w, toward)
+            extra.append(float(w))
+            ulps.append(k)
+        if rng.random() < 0.25:
+            extra.append(vals[i])                                                # and an exact duplicate
+    ys = vals + extra
+    rng.shuffle(ys)
+    tags = dict(sign=sign, orders=int(orders), near_tie_ulps=sorted(set(ulps)), n=len(ys))
+    return ys, dtype, tags
+
+
 def gen_limits(rng, ys):
     srt = sorted(set(ys))
     kind = rng.choice(["none", "none", "left", "right", "both", "left@obs", "right@obs", "right@min", "both@obs"])
